@@ -143,7 +143,9 @@ def pairStructOk (y : Int) (ya ya' : YearAstro) : Bool :=
   recordsAgree (fun _ => true) (y + 1) ya.months ya'.months &&
   recordsAgree (fun _ => true) y ya'.months ya.months &&
   isPrefixOf' (monthsInYear ya.months (y + 1)) (monthsInYear ya'.months (y + 1)) &&
-  isPrefixOf' (monthsInYear ya'.months y).reverse (monthsInYear ya.months y).reverse
+  isPrefixOf' (monthsInYear ya'.months y).reverse (monthsInYear ya.months y).reverse &&
+  -- the two tables really overlap (share at least one month), so walks can cross from one to the other
+  (!(monthsInYear ya'.months y).isEmpty || !(monthsInYear ya.months (y + 1)).isEmpty)
 
 
 /-- index of the record containing day number `n` -/
